@@ -492,6 +492,14 @@ Definition mop (op : fsys -> fsys + fserr) (on_err : fserr -> res unit) : M unit
    of its failing file patches is rendered; nothing is written yet *)
 Definition rej_file := (bytes * bytes)%type.       (* name (as joined to the base directory), content *)
 
+(* several file patches of one patch may name the same file: their rejects share one file, the one
+   rendered later (= earlier in the patch, the walk goes backwards) in front *)
+Fixpoint add_rej (name data : bytes) (acc : list rej_file) : list rej_file :=
+  match acc with
+  | [] => [(name, data)]
+  | (n, d) :: rest => if bytes_eqb n name then (n, data ++ d) :: rest else (n, d) :: add_rej name data rest
+  end.
+
 Fixpoint rollback_and_render_rej (fuel : nat) (st : astate) (index : nat) (acc : list rej_file)
   : res (astate * list rej_file) :=
   match fuel with
@@ -508,7 +516,7 @@ Fixpoint rollback_and_render_rej (fuel : nat) (st : astate) (index : nat) (acc :
             let st' := {| a_applied := rest; a_files := ov' |} in
             if r_failed (st_report s) then
               dor data <- write_rej_bytes s;
-              rollback_and_render_rej f st' index (acc ++ [(rej_name (st_target s), data)])
+              rollback_and_render_rej f st' index (add_rej (rej_name (st_target s)) data acc)
             else rollback_and_render_rej f st' index acc
       end
   end.
